@@ -892,6 +892,11 @@ class Engine:
         raise Unsupported('iter_model of %r' % (it,))
 
     def havoc_like(self, old, typ, name):
+        if typ in ('real?', 'opaque?', 'int?'):
+            # None or a value of the type: decided by a fork (the invariant prunes impossible combinations)
+            if self.decide(2, 'havoc %s is None' % name) == 1:
+                return NONE
+            typ = typ[:-1]
         if typ == 'int' or (typ is None and isinstance(old, VI)) or (
                 typ is None and isinstance(old, VC) and type(old.v) is int):
             return VI(self.fresh_int(name))
@@ -1526,6 +1531,8 @@ class Engine:
         if isinstance(v, VI):
             return z3.ToReal(v.t)
         if isinstance(v, VO):
+            if self.tfacts.get((v.name, 'int')):
+                return z3.ToReal(as_int(v.t))
             return as_real(v.t)
         raise Unsupported('not a real: %r' % (v,))
 
